@@ -1,10 +1,11 @@
 (* C01 - certified eps-optimality of the result under the Lipschitz reliability condition.
-   Proved here in full for dimension N = 1 (K_1 = 2, no grid term). For N >= 2 the statement additionally needs the
-   evolvent's Hoelder bound (C08) and covering (C07) composed with Euclidean norms: that composition is not done in this
-   version; N >= 2 is covered by the search oracle only (stated in the evidence and in DESIGN.md). *)
+   Dimension N = 1: K_1 = 2, no grid term (AGP/Optimality.v). Dimensions N = 2..5: the same covering argument over the
+   Hoelder metric |dx|^(1/N) (AGP/OptimalityN.v, AGP/RootN.v) composed with the evolvent's Hoelder inequality, box
+   containment and density of the images (Evolvent/HolderReal.v, Evolvent/ImageR.v): AGP/OptimalityBox.v.
+   In both, M is the estimate in force when the last interval was selected (see C01_final_M_reading_refuted). *)
 From Coq Require Import Reals ZArith QArith List Bool Lra Lia.
 From IOptV Require Import AGP.Ops gen.MethodGen AGP.Impl AGP.Laws AGP.Termination AGP.Invariant AGP.Preserve AGP.Step AGP.RealOps
-  AGP.Optimality AGP.QOps AGP.Refuted.
+  AGP.Optimality AGP.QOps AGP.Refuted AGP.OptimalityN AGP.RootN AGP.OptimalityBox Evolvent.Ev Evolvent.Dims Evolvent.ImageR.
 Import ListNotations.
 
 (* for EVERY objective phi on [0,1] with Lipschitz constant H, every r > 1, eps, and every number k >= 1 of iterations
@@ -13,7 +14,7 @@ Import ListNotations.
    exceeds phi NOWHERE on [0,1] by (r M / 2) eps or more *)
 Theorem C01_certificate_dimension_one : forall (p : params (T := R)) (phi : R -> R) (H : R),
   (1 < p_r p)%R -> (0 <= H)%R -> (forall x y, (0 <= x <= 1)%R -> (0 <= y <= 1)%R -> (Rabs (phi x - phi y) <= H * Rabs (x - y))%R) ->
-  forall k s s' x eps, (1 <= k)%nat -> PhiRun p phi k s -> step r_ops p s (Value (phi x)) = (s', Done x) ->
+  forall k s s' x eps, (1 <= k)%nat -> PhiRun p phi k s -> Impl.step r_ops p s (Value (phi x)) = (s', Done x) ->
   (2 * H <= p_r p * sM s)%R -> ltb r_ops (mind s) eps = false -> ltb r_ops (mind s') eps = true ->
   forall y, (0 <= y <= 1)%R -> (sZ s - phi y < p_r p * sM s / 2 * eps)%R.
 Proof. exact agp_certificate_1d. Qed.
@@ -23,7 +24,7 @@ Print Assumptions C01_certificate_dimension_one.
 Theorem C01_flat_objectives_unconditional : forall (p : params (T := R)) (phi : R -> R) (H : R),
   (1 < p_r p)%R -> (0 <= H)%R -> (forall x y, (0 <= x <= 1)%R -> (0 <= y <= 1)%R -> (Rabs (phi x - phi y) <= H * Rabs (x - y))%R) ->
   (2 * H <= p_r p)%R ->
-  forall k s s' x eps, (1 <= k)%nat -> PhiRun p phi k s -> step r_ops p s (Value (phi x)) = (s', Done x) ->
+  forall k s s' x eps, (1 <= k)%nat -> PhiRun p phi k s -> Impl.step r_ops p s (Value (phi x)) = (s', Done x) ->
   ltb r_ops (mind s) eps = false -> ltb r_ops (mind s') eps = true ->
   forall y, (0 <= y <= 1)%R -> (sZ s - phi y < p_r p * sM s / 2 * eps)%R.
 Proof.
@@ -39,6 +40,36 @@ Theorem C01_interior_lower_bound : forall (mu H D zl zr zs f dl dr : R),
    zs - f <= mu / 4 * (D + (zr - zl) * (zr - zl) / (mu * mu * D) - 2 * (zr + zl - 2 * zs) / mu))%R.
 Proof. exact interior_lb. Qed.
 Print Assumptions C01_interior_lower_bound.
+
+(* dimensions 2..5: for EVERY objective f with Lipschitz constant L (Euclidean norm) on EVERY box with sides in (0, S], every
+   density m >= 1, every r > 1, eps and every number k >= 1 of iterations driven by f through the evolvent: if the next
+   iteration subdivides an interval of Hoelder length below eps and r * M >= K_N * (L S), K_N = 2^(3 - 1/N) sqrt(N + 3)
+   (written 4 c_N * 2 sqrt(N+3), see C01_K_N), then the best value exceeds f NOWHERE in the box by
+   (r M / 2) eps + L S 2^-m (sqrt(N+3) + sqrt(N)/2) or more *)
+Theorem C01_certificate_dimensions_2_to_5 : forall (n m : nat) (lo hi : list R) (S : R) (f : list R -> R) (L : R) (p : params (T := R)),
+  dim_ok n -> (1 <= m)%nat -> length lo = n -> length hi = n -> (0 <= S)%R -> sides_ok S lo hi -> (0 <= L)%R ->
+  (forall Y Y', in_boxR lo hi Y -> in_boxR lo hi Y' -> (Rabs (f Y - f Y') <= L * sqrt (dist2R Y Y'))%R) ->
+  (1 < p_r p)%R ->
+  forall k s s' x eps, (1 <= k)%nat -> PhiRunN (rootn n) (fun a => (a ^ n)%R) p (phi_of n m lo hi f) k s ->
+  Impl.step (rn_ops n) p s (Value (phi_of n m lo hi f x)) = (s', Done x) ->
+  (4 * cn n * (2 * sqrt (INR n + 3) * L * S) <= p_r p * sM s)%R ->
+  ltb (rn_ops n) (mind s) eps = false -> ltb (rn_ops n) (mind s') eps = true ->
+  forall Y, in_boxR lo hi Y ->
+  (sZ s - f Y < p_r p * sM s / 2 * eps + L * S / 2 ^ m * (sqrt (INR n + 3) + sqrt (INR n) / 2))%R.
+Proof.
+  intros n m lo hi S f L p Hd Hm Llo Lhi HS Sides HL Lip Hr.
+  apply (certificate_box n (all_ok_dim n Hd) ltac:(unfold dim_ok in Hd; lia) m Hm lo hi S Llo Lhi HS Sides f L HL Lip p Hr).
+Qed.
+Print Assumptions C01_certificate_dimensions_2_to_5.
+
+(* the constant: 4 c_N * 2 sqrt(N+3) = 2^(3 - 1/N) sqrt(N+3) = K_N *)
+Theorem C01_K_N : forall n, (1 <= n)%nat -> (4 * cn n * (2 * sqrt (INR n + 3)) = Rpower 2 (3 - / INR n) * sqrt (INR n + 3))%R.
+Proof.
+  intros n Hn. unfold cn, Rminus. rewrite Rpower_plus.
+  replace (Rpower 2 3) with 8%R; [ring|].
+  replace 3%R with (INR 3) by (simpl; lra). rewrite Rpower_pow by lra. simpl. lra.
+Qed.
+Print Assumptions C01_K_N.
 
 (* the literal reading (M = largest slope seen by the time Solve returns) is FALSE of the algorithm: kernel-evaluated witness *)
 Theorem C01_final_M_reading_refuted :
